@@ -1303,7 +1303,6 @@ class NodeListComprehension:
         values = getCollectionValue(lst, self.what, self.pos)
         for listValue in values:
             localEnv.put(self.identifier, listValue)
-            value = self.valueExpr.evaluate(localEnv)
             if self.conditionExpr:
                 condition = self.conditionExpr.evaluate(localEnv)
                 if not condition.isBoolean():
@@ -1313,10 +1312,10 @@ class NodeListComprehension:
                         f"but got {condition.type()}",
                         self.pos,
                     )
-                if condition.value:
-                    result.addItem(value)
-            else:
-                result.addItem(value)
+                if not condition.value:
+                    continue
+            value = self.valueExpr.evaluate(localEnv)
+            result.addItem(value)
         return result
 
     def __repr__(self):
@@ -1386,7 +1385,6 @@ class NodeListComprehensionParallel:
             listValue2 = values2[i] if i < len(values2) else None
             localEnv.put(self.identifier1, listValue1)
             localEnv.put(self.identifier2, listValue2)
-            value = self.valueExpr.evaluate(localEnv)
             if self.conditionExpr:
                 condition = self.conditionExpr.evaluate(localEnv)
                 if not condition.isBoolean():
@@ -1396,10 +1394,10 @@ class NodeListComprehensionParallel:
                         f"got {condition.type()}",
                         self.pos,
                     )
-                if condition.value:
-                    result.addItem(value)
-            else:
-                result.addItem(value)
+                if not condition.value:
+                    continue
+            value = self.valueExpr.evaluate(localEnv)
+            result.addItem(value)
         return result
 
     def __repr__(self):
@@ -1476,7 +1474,6 @@ class NodeListComprehensionProduct:
             localEnv.put(self.identifier1, listValue1)
             for listValue2 in values2:
                 localEnv.put(self.identifier2, listValue2)
-                value = self.valueExpr.evaluate(localEnv)
                 if self.conditionExpr:
                     condition = self.conditionExpr.evaluate(localEnv)
                     if not condition.isBoolean():
@@ -1486,10 +1483,10 @@ class NodeListComprehensionProduct:
                             f"but got {condition.type()}",
                             self.pos,
                         )
-                    if condition.value:
-                        result.addItem(value)
-                else:
-                    result.addItem(value)
+                    if not condition.value:
+                        continue
+                value = self.valueExpr.evaluate(localEnv)
+                result.addItem(value)
         return result
 
     def __repr__(self):
@@ -1606,8 +1603,6 @@ class NodeMapComprehension:
         values = getCollectionValue(lst, self.what, self.pos)
         for listValue in values:
             localEnv.put(self.identifier, listValue)
-            key = self.keyExpr.evaluate(localEnv)
-            value = self.valueExpr.evaluate(localEnv)
             if self.conditionExpr:
                 condition = self.conditionExpr.evaluate(localEnv)
                 if not condition.isBoolean():
@@ -1617,10 +1612,11 @@ class NodeMapComprehension:
                         f"but got {condition.type()}",
                         self.pos,
                     )
-                if condition.value:
-                    result.addItem(key, value)
-            else:
-                result.addItem(key, value)
+                if not condition.value:
+                    continue
+            key = self.keyExpr.evaluate(localEnv)
+            value = self.valueExpr.evaluate(localEnv)
+            result.addItem(key, value)
         return result
 
     def __repr__(self):
@@ -1965,7 +1961,6 @@ class NodeSetComprehension:
         values = getCollectionValue(lst, self.what, self.pos)
         for listValue in values:
             localEnv.put(self.identifier, listValue)
-            value = self.valueExpr.evaluate(localEnv)
             if self.conditionExpr:
                 condition = self.conditionExpr.evaluate(localEnv)
                 if not condition.isBoolean():
@@ -1975,10 +1970,10 @@ class NodeSetComprehension:
                         + condition.type(),
                         self.pos,
                     )
-                if condition.value:
-                    result.addItem(value)
-            else:
-                result.addItem(value)
+                if not condition.value:
+                    continue
+            value = self.valueExpr.evaluate(localEnv)
+            result.addItem(value)
         return result
 
     def __repr__(self):
@@ -2041,7 +2036,6 @@ class NodeSetComprehensionParallel:
             localEnv.put(
                 self.identifier2, values2[i] if i < len(values2) else NULL
             )
-            value = self.valueExpr.evaluate(localEnv)
             if self.conditionExpr:
                 condition = self.conditionExpr.evaluate(localEnv)
                 if not condition.isBoolean():
@@ -2051,10 +2045,10 @@ class NodeSetComprehensionParallel:
                         + condition.type(),
                         self.pos,
                     )
-                if condition.value:
-                    result.addItem(value)
-            else:
-                result.addItem(value)
+                if not condition.value:
+                    continue
+            value = self.valueExpr.evaluate(localEnv)
+            result.addItem(value)
         return result
 
     def __repr__(self):
@@ -2125,7 +2119,6 @@ class NodeSetComprehensionProduct:
             localEnv.put(self.identifier1, value1)
             for value2 in values2:
                 localEnv.put(self.identifier2, value2)
-                value = self.valueExpr.evaluate(localEnv)
                 if self.conditionExpr:
                     condition = self.conditionExpr.evaluate(localEnv)
                     if not condition.isBoolean():
@@ -2135,10 +2128,10 @@ class NodeSetComprehensionProduct:
                             + condition.type(),
                             self.pos,
                         )
-                    if condition.value:
-                        result.addItem(value)
-                else:
-                    result.addItem(value)
+                    if not condition.value:
+                        continue
+                value = self.valueExpr.evaluate(localEnv)
+                result.addItem(value)
         return result
 
     def __repr__(self):
